@@ -14,7 +14,7 @@ def key(conj, rec):
         return "%s:%s:%s:len=%s:%s" % (conj, rec["type"], rec["cls"], rec["len"], rec["first"].get("entry"))
     if rec.get("fn") in ("rt", "dispatch"):
         return "%s:%s:%s" % (conj, rec["fn"], rec.get("type", rec.get("code")))
-    return "%s:%s:ret=%s:render=%s" % (conj, rec["op"], rec["ret"]["t"], rec["render"])
+    return "%s:%s:ret=%s:render=%s" % (conj, rec.get("op"), rec.get("ret", {}).get("t"), rec.get("render"))
 
 
 def run(tier, replay=None):
@@ -41,6 +41,10 @@ def run(tier, replay=None):
     # RenderOK: an array indexed by a wire byte or a nil field behind a half-valid reply only fails for specific values
     byfield = common.harness_traces("c02", tier, shards=16, env=env, extra_args=["-x", "layouts=" + layouts], timeout=7200, name="c02-for-c04")
     common.validate(v, "Trace_Api", "Trace_Api.cfg", byfield, key)
+    # (g) C07's argument generator (boundary card numbers x format lists, every AddrPort / net.IP shape, doors 0..255, passcode
+    # lists, time profiles with missing / reversed segments): no argument tuple may crash an operation
+    argsum = common.harness_traces("c07", tier, shards=8, env=env, timeout=7200, name="c07-for-c04")
+    common.validate(v, "Trace_Api", "Trace_Api.cfg", argsum, key)
     # (f) byte strings of every length through the REAL driver on loopback (connected UDP, TCP, broadcast path, discovery,
     # the event listener; debug off and on): the receive buffers and the debug dump are not reachable through a stub
     net = common.harness_traces("c04net", tier, shards=2, env=env, extra_args=["-x", "layouts=" + layouts], timeout=3600)
@@ -50,10 +54,10 @@ def run(tier, replay=None):
         for r in vflib.read_ndjson(f):
             fuzzed += r.get("n", 0)
     v.coverage["byte_strings_decoded"] = fuzzed
-    v.coverage["evaluations"] = fuzzed + api["records"] + byfield["records"]
+    v.coverage["evaluations"] = fuzzed + api["records"] + byfield["records"] + argsum["records"]
     v.coverage["rule"] = ("(a) per registered type (32 request, 31 reply, 2 event): byte strings of every length 0..80 and {127,128,129,255,256,1023,1024,1025,2047,2048} with contents zeros / 0xff / random / header+random / valid prefix / valid suffix, "
                           "and every single byte of a valid message over all 256 values, through every decode entry point + String/JSON of what was decoded (summarised per (type, class, length)); "
                           "(b) every operation answered by 1..3 arbitrary datagrams (7 classes); (c) extreme and random argument tuples incl. nil maps, nil/short IPs, zero / year-20000 / negative-year dates, out-of-range enums; "
-                          "(d) 400 arbitrary datagrams through the event listener; (f) replies of every length 0..80 + selected lengths to 4096 x 5 content classes through the real driver on loopback (udp, tcp, broadcast, discovery, listener; debug off/on); (e) C02's field-by-field reply generator through every operation, each result rendered with String (called directly and through fmt) and JSON. distinct = distinct (type/operation, class, length|sample)")
+                          "(d) 400 arbitrary datagrams through the event listener; (f) replies of every length 0..80 + selected lengths to 4096 x 5 content classes through the real driver on loopback (udp, tcp, broadcast, discovery, listener; debug off/on); (g) C07's argument generator through the operations; (e) C02's field-by-field reply generator through every operation, each result rendered with String (called directly and through fmt) and JSON. distinct = distinct (type/operation, class, length|sample)")
     v.coverage["checker_cmd"] = "tlc Trace_Codec; tlc Trace_Api (conjuncts NoPanic, RenderOK)"
     return v.finish(write_evidence=replay is None)
